@@ -50,6 +50,10 @@
 
 #include "htp_private.h"
 
+#ifdef OISF_LIBHTP_VERIF
+void (*htp_verif_trace_fn)(int site, const void *connp, const void *a, long b) = NULL;
+#endif
+
 /**
  * Is character a linear white space character?
  *
